@@ -246,6 +246,44 @@ def model_check(ctx, families, module, cfg, expect_violation=None, **kw):
     return r
 
 
+def apalache_inductive(ctx, families, module, cfg, ind_init="IndInit", inv="IndInv", init="Init",
+                       expect_not_inductive=False, timeout=900):
+    """Discharge an inductive invariant with Apalache: Init => Inv (length 0) and IndInit /\ Next => Inv' (length 1).
+    With expect_not_inductive the step must FAIL (a must-fail config guards against a vacuous IndInv).
+    Anything other than the expected outcome is infrastructure, never a violation (no real-code observation is involved)."""
+    d = spec_scratch(ctx, families, "apa_" + cfg.replace(".cfg", ""))
+    e = dict(os.environ)
+    e.pop("JAVA_TOOL_OPTIONS", None)
+    def one(i, n):
+        t = time.time()
+        try:
+            p = subprocess.run(["apalache-mc", "check", "--config=" + cfg, "--init=" + i, "--inv=" + inv, "--length=%d" % n,
+                                "--out-dir=" + os.path.join(d, "out"), module],
+                               cwd=d, env=e, stdout=subprocess.PIPE, stderr=subprocess.STDOUT, timeout=timeout, text=True, errors="replace")
+            out = p.stdout
+        except subprocess.TimeoutExpired:
+            raise Infra("apalache timeout on %s/%s" % (module, cfg))
+        ok = "EXITCODE: OK" in out and "The outcome is: NoError" in out
+        bad = "EXITCODE: ERROR (12)" in out and "violated" in out
+        return ok, bad, out, time.time() - t
+    results = []
+    steps = [(ind_init, 1)] if expect_not_inductive else [(init, 0), (ind_init, 1)]
+    for i, n in steps:
+        ok, bad, out, wall = one(i, n)
+        res = "ok" if ok else ("violated" if bad else "error")
+        ctx.model_runs.append({"config": cfg, "module": module, "tool": "apalache", "init": i, "inv": inv, "length": n,
+                               "wall_s": round(wall, 1), "result": res})
+        ctx.log("Apalache %s/%s init=%s inv=%s length=%d: %s (%.1fs)" % (module, cfg, i, inv, n, res, wall))
+        results.append(res)
+        if expect_not_inductive:
+            if res != "violated":
+                raise Infra("apalache: %s expected NOT to be inductive under %s but got %s\n%s" % (inv, cfg, res, out[-2000:]))
+        elif res != "ok":
+            raise Infra("apalache: %s/%s init=%s length=%d did not pass: %s\n%s" % (module, cfg, i, n, res, out[-3000:]))
+    shutil.rmtree(os.path.join(d, "out"), ignore_errors=True)
+    return results
+
+
 def count_lines(path):
     n = 0
     with open(path, "rb") as f:
